@@ -380,11 +380,11 @@ bool GennaroJareckiKrawczykRabinDKG::Generate
 		err << "WARNING: maximum synchronous t-resilience exceeded" << std::endl;
 
 	// initialize
-	mpz_t foo, bar, lhs, rhs;
+	mpz_t foo, foo2, bar, lhs, rhs;
 	std::vector<mpz_ptr> a_i, b_i, g__a_i;
 	std::vector< std::vector<mpz_ptr> > A_ik, g__s_ij, a_ik;
 	std::vector<size_t> complaints, complaints_counter, complaints_from;
-	mpz_init(foo), mpz_init(bar), mpz_init(lhs), mpz_init(rhs);
+	mpz_init(foo), mpz_init(foo2), mpz_init(bar), mpz_init(lhs), mpz_init(rhs);
 	for (size_t k = 0; k <= t; k++)
 	{
 		mpz_ptr tmp1 = new mpz_t(), tmp2 = new mpz_t(), tmp3 = new mpz_t();
@@ -864,8 +864,8 @@ bool GennaroJareckiKrawczykRabinDKG::Generate
 		{
 			mpz_set_ui(rhs, *it);
 			rbc->Broadcast(rhs);
-			rbc->Broadcast(s_ij[i][*it]);
-			rbc->Broadcast(sprime_ij[i][*it]);
+			rbc->Broadcast(s_ij[*it][i]);
+			rbc->Broadcast(sprime_ij[*it][i]);
 		}
 		mpz_set_ui(rhs, n); // broadcast end marker
 		rbc->Broadcast(rhs);
@@ -921,9 +921,11 @@ bool GennaroJareckiKrawczykRabinDKG::Generate
 						complaints.push_back(j);
 						mpz_set_ui(bar, 0L); // indicates an error
 					}
-					// verify complaint, i.e. (4) holds (5) not.
+					// verify complaint, i.e. (4) holds (5) not, for the share
+					// $s_{who,j}$ that $P_j$ received from the dealer $P_{who}$
 					// compute LHS for the check
 					tmcg_mpz_fpowm(fpowm_table_g, lhs, g, foo, p);
+					mpz_set(foo2, lhs); // keep $g^{s_{who,j}}$ for equation (5)
 					tmcg_mpz_fpowm(fpowm_table_h, bar, h, bar, p);
 					mpz_mul(lhs, lhs, bar);
 					mpz_mod(lhs, lhs, p);
@@ -931,8 +933,8 @@ bool GennaroJareckiKrawczykRabinDKG::Generate
 					mpz_set_ui(rhs, 1L);
 					for (size_t k = 0; k <= t; k++)
 					{
-						mpz_ui_pow_ui(foo, who + 1, k); // adjust index $i$ in computation
-						mpz_powm(bar, C_ik[j][k], foo, p);
+						mpz_ui_pow_ui(foo, j + 1, k); // adjust index $j$ in computation
+						mpz_powm(bar, C_ik[who][k], foo, p);
 						mpz_mul(rhs, rhs, bar);
 						mpz_mod(rhs, rhs, p);
 					}
@@ -941,15 +943,17 @@ bool GennaroJareckiKrawczykRabinDKG::Generate
 					{
 						err << "P_" << i << ": checking 4(c)(4) failed; complaint against P_" << j << std::endl;
 						complaints.push_back(j);
+						cnt++;
+						continue; // not a valid complaint
 					}
 					// compute LHS for the check
-					tmcg_mpz_fpowm(fpowm_table_g, lhs, g, foo, p);
+					mpz_set(lhs, foo2);
 					// compute RHS for the check
 					mpz_set_ui(rhs, 1L);
 					for (size_t k = 0; k <= t; k++)
 					{
-						mpz_ui_pow_ui(foo, i + 1, k); // adjust index $i$ in computation
-						mpz_powm(bar, A_ik[j][k], foo, p);
+						mpz_ui_pow_ui(foo, j + 1, k); // adjust index $j$ in computation
+						mpz_powm(bar, A_ik[who][k], foo, p);
 						mpz_mul(rhs, rhs, bar);
 						mpz_mod(rhs, rhs, p);
 					}
@@ -1030,7 +1034,7 @@ bool GennaroJareckiKrawczykRabinDKG::Generate
 		// unset ID for RBC
 		rbc->unsetID();
 		// release
-		mpz_clear(foo), mpz_clear(bar), mpz_clear(lhs), mpz_clear(rhs);
+		mpz_clear(foo), mpz_clear(foo2), mpz_clear(bar), mpz_clear(lhs), mpz_clear(rhs);
 		for (size_t k = 0; k <= t; k++)
 		{
 			mpz_clear(a_i[k]), mpz_clear(b_i[k]);
